@@ -30,7 +30,7 @@ def jobs(tier):
             for mask in range(16):
                 J.append(job('C02', 'cg', n, k, obj=o, cg_mask=mask, checks=ck))
     for o in OBJ3:
-        for mask in (range(16) if T else ((0, 1, 2, 4, 8, 11, 15) if o == 'diff' else (0, 11, 15))):
+        for mask in (range(16) if T else (0, 11, 15)):
             J.append(job('C02', 'cg', 4, 3, obj=o, cg_mask=mask, checks=ck))
     # (5,k) non-increasing: (5,2) contains LPT's tight instance, i.e. the first leaf of complete greedy is not optimal there
     for o in OBJ3:
@@ -61,6 +61,28 @@ def jobs(tier):
         for (n, k, g) in ((6, 3, [3, 3]), (7, 4, [4, 3]), (7, 4, [3, 4]), (6, 4, [2, 4])):
             if alg == 'ckk' and k > 3: continue
             J.append(job('C02', alg, n, k, obj='diff', order='asc', groups=g, checks=ck, **kw))
+    # three distinct symbolic values with stated multiplicities, 6-7 items into 3 bins (cheap at 3 bins even with the oracle)
+    for g in ([1, 2, 4], [1, 3, 3], [2, 2, 3], [3, 2, 2], [2, 3, 2], [4, 2, 1], [1, 1, 5], [3, 3, 1]):
+        for o in ('min', 'diff'):
+            J.append(job('C02', 'cg', 7, 3, obj=o, cg_mask=11, order='desc', groups=g, checks=ck))
+    for g in ([1, 2, 4], [2, 2, 3], [3, 3, 1]):
+        J.append(job('C02', 'cg', 7, 3, obj='max', cg_mask=15, order='desc', groups=g, checks=ck))
+    for g in ([1, 2, 3], [3, 2, 1], [2, 2, 2], [1, 1, 4], [4, 1, 1], [2, 1, 3]):
+        for alg in EXACT_DIFF:
+            J.append(job('C02', alg, 6, 3, obj='diff', order='desc', groups=g, checks=ck))
+    if T:
+        import itertools as _it
+        for n in (6, 7):
+            for g in [list(c) for c in _it.product(range(1, n), repeat=3) if sum(c) == n]:
+                for o in OBJ3:
+                    J.append(job('C02', 'cg', n, 3, obj=o, cg_mask=15, order='desc', groups=g, checks=ck))
+                for alg in EXACT_DIFF:
+                    J.append(job('C02', alg, n, 3, obj='diff', order='desc', groups=g, checks=ck, mandatory=(n == 6)))
+    # value lists (the items are the numbers themselves, so equal values are equal ITEMS): repeated values
+    for alg in EXACT_DIFF:
+        for (n, k, g) in ((5, 3, [4, 1]), (5, 3, [1, 4]), (6, 3, [4, 2]), (5, 2, [3, 2])):
+            J.append(job('C02', alg, n, k, obj='diff', order='asc', groups=g, pres='list', checks=ck))
+        J.append(job('C02', alg, 4, 3, obj='diff', order='desc', pres='list', checks=ck))
     for o in ('max', 'min'):
         J.append(job('C02', 'cg', 6, 3, obj=o, cg_mask=15, order='asc', groups=[3, 3], checks=ck)); J.append(job('C02', 'dp', 6, 3, obj=o, order='asc', groups=[3, 3], checks=ck))
     if T:
